@@ -135,6 +135,7 @@ REQUIRED_COUNTERS = [
     "swa_evicted",                # sliding-window eviction (canResume_sound / load_window_present context)
     # the legs themselves ran and did what they are for (an empty ops.txt / l2.txt must not pass)
     "cases", "corpus_cases", "cfg_swa", "cfg_multiuser", "cfg_noshiftfn", "req_fresh_equiv_checked", "stop_cut_checked",
+    "variant_findstop_earliest", "variant_canresume_counted",
     "hh_cases", "hh_cancel", "hh_open_right_after_cancel", "ll_cases", "llh_cases", "llh_fork", "llh_shift_reprocess",
 ]
 
@@ -252,6 +253,16 @@ def run(ctx):
         if missing:
             ctx.violation("correspondence-coverage", "", "branches the theorems speak about were never exercised by "
                           "the history driver on the real code: " + ", ".join(missing), no_input=True)
+    # the model takes two probed variants from the tree (FindStop: earliest occurrence, commit 6e9857ebf / C14 F7;
+    # CanResume: with the presence count, commit 86ff119f0). The EXPECTED tree has both repairs: a tree that has lost
+    # one is reported even though the model follows it (L1 stays exact for the older variant).
+    if not ctx.replay:
+        for bad, what in (("variant_findstop_first_listed", "common.FindStop returns the first LISTED stop again (fix 6e9857ebf lost)"),
+                          ("variant_canresume_uncounted", "Causal.CanResume lost its presence count (fix 86ff119f0): a "
+                           "sliding-window slot can be resumed although entries of the window are gone")):
+            if ctx.stats.get(bad, 0) > 0:
+                ctx.violation("variant-regression", "", what + " (probed on the real function by the driver; %d histories ran "
+                              "against the older model variant)" % ctx.stats.get(bad, 0), no_input=True)
     sha = ll_replayed_sha()
     ctx.coverage["llamarunner_replayed_source_sha1"] = sha
     ctx.coverage["llamarunner_replayed_source_sha1_expected"] = LL_REPLAYED_SHA1
